@@ -115,7 +115,18 @@ def num_src(v):
     return s if v >= 0 else f"({s})"
 
 
-def to_src(e):
+def to_src(e, left_products=False):
+    """left_products: write a product of three or more factors as ((a * b) * c).  dagrt's parser reads 'a * b * c'
+    as a*(b*c) while generated code and the flattened right-hand side of an Assign multiply from the left; the
+    two differ in rounding only (and at overflow), which is outside every property here."""
+    if left_products and e[0] == "*" and len(e) > 3:
+        return to_src(["*", ["*"] + list(e[1:-1]), e[-1]], True)
+    if left_products:
+        return _to_src_rec(e, lambda x: to_src(x, True))
+    return _to_src_rec(e, to_src)
+
+
+def _to_src_rec(e, to_src):
     k = e[0]
     if k == "num":
         return num_src(e[1])
